@@ -68,6 +68,10 @@ CHECKS = {
    technique="symbolic execution of the MIR of pest/src/iterators (Pairs, Pair, FlatPairs, Tokens, PairsBuilder, LineIndex) with the interleaving of next/next_back/len/peek chosen by symbolic selectors (z3 forks on them); every answer compared with the explicit tree",
    text="Every ordered forest with <= 4 (quick) / 5 (thorough) nodes and height <= 3 is built through the real PairsBuilder (rule, rule_with, tag, build); the produced queue must be balanced with matching partner indices. On the Pairs, FlatPairs and Tokens views every interleaving of 4 (quick) / 6 (thorough) operations next / next_back / len+size_hint / peek is executed from MIR and each answer (which pair or token, how many left) is compared with the tree; every yielded pair is checked for as_rule, as_str, as_span, line_col (against the newline/character count), into_inner().len() and as_node_tag; Pairs::single(pair) must be a one-pair view of that pair from both ends; Pairs::as_str must be the covered text.",
    note="Spans are fixed by the forest over one input containing a newline and a two-byte character (not symbolic). Display, Debug and JSON output are outside the encoding (core::fmt, serde). No native replay in this check; Rc/Vec/slice/partition_point summarised. Well-formedness of queues produced by parses is covered through the reference comparisons of C01/C03."),
+ "C09": dict(level="other", design="§5 C09", engine="M",
+   technique="symbolic execution of the MIR of the whole front-end pest_meta::parse_and_optimize (checked-in meta-parser, validate_pairs, consume_rules, validate_ast, optimize) on symbolic text and on near-miss templates with symbolic holes; z3 decides every branch; every path replayed natively where each error is also rendered",
+   text="Reduced form of the property: every valid UTF-8 text of 0..N bytes (N=2 quick / 3 thorough) and 58 near-miss grammar templates (truncated constructs, stray bytes after every kind of token, odd escapes, unbalanced delimiters and comments, symbolic digits in counts and PEEK indices, out-of-range numbers, duplicate/undefined/keyword rule names, left recursion, empty repetitions) with 1-2 symbolic ASCII holes are run through the real parse_and_optimize from MIR. No path may panic (MIR asserts, unwrap/expect, unreachable included), the result is Ok(rules) or Err(non-empty list) and every error's location lies inside the text. The native replay of every path also renders each error under catch_unwind.",
+   note="Not all strings: texts longer than N bytes only near the template skeletons; rule names are concrete (the validator's sets are keyed by them); generator/src/docs.rs is not encoded; 'bounded time' is the 8M-statement step budget per path, never reached. HashMap/HashSet/LazyLock summarised, format! is a placeholder string."),
 }
 
 NOT_APPLICABLE = {
